@@ -21,12 +21,24 @@ func genMem(sh *Shape) {
 	var b strings.Builder
 	b.WriteString(header(sh.Pkg))
 	fmt.Fprintf(&b, "var classArgs = %s\nvar classRes = %s\n\n", goIntss(c.A), goIntss(c.F))
+	// re-entrancy: f(c) calls the memoized function on class dep[c-1] (0 = it does not); set per case
+	fmt.Fprintf(&b, "var dep [3]int\nvar memf %s\n\n", funcType(pt, rtys))
 	b.WriteString("func classOf(a ...int) int {\n\tfor c, as := range classArgs {\n\t\tsame := len(as) == len(a)\n\t\tfor i := range a {\n\t\t\tif same && as[i] != a[i] {\n\t\t\t\tsame = false\n\t\t\t}\n\t\t}\n\t\tif same {\n\t\t\treturn c\n\t\t}\n\t}\n\treturn -1\n}\n\n")
 	// the memoized function: deterministic, its results depend on the class of its arguments only
 	fmt.Fprintf(&b, "func fimpl(%s)%s {\n", paramDecl(xs(len(kp)), pt), results(rtys))
 	pr := strings.Join(prArgs(xs(len(kp)), kp, memKinds), ", ")
 	fmt.Fprintf(&b, "\ti := rt.Enter(%s)\n", strings.Join(append([]string{"1"}, prArgs(xs(len(kp)), kp, memKinds)...), ", "))
-	fmt.Fprintf(&b, "\tres := make([]int, %d)\n\tfor j := range res {\n\t\tres[j] = 99\n\t}\n\tif c := classOf(%s); c >= 0 {\n\t\tres = classRes[c]\n\t}\n\trt.Exit(i, 0, res...)\n", len(kr), pr)
+	nargs := make([]string, len(kp))
+	for j, k := range kp {
+		nargs[j] = fmt.Sprintf("%s(classArgs[d-1][%d], 2)", memKinds[k].mk, j)
+	}
+	nl, nvs := lhs(len(kr), false, ":=")
+	fmt.Fprintf(&b, "\tres := make([]int, %d)\n\tfor j := range res {\n\t\tres[j] = 99\n\t}\n\tc := classOf(%s)\n\tif c >= 0 {\n\t\tres = classRes[c]\n\t}\n\trt.Exit(i, 0, res...)\n", len(kr), pr)
+	if len(kp) > 0 {
+		// the nested call of the memoized function is logged as function 2: its arguments and what it returned to f
+		fmt.Fprintf(&b, "\tif c >= 0 && dep[c] != 0 {\n\t\td := dep[c]\n\t\tn := rt.Enter(2, classArgs[d-1]...)\n\t\t%smemf(%s)\n\t\trt.Exit(n, 0, rt.Ints(%s)...)\n\t}\n",
+			nl, strings.Join(nargs, ", "), strings.Join(prArgs(nvs, kr, kinds), ", "))
+	}
 	vals := make([]string, len(kr))
 	for j, k := range kr {
 		vals[j] = fmt.Sprintf("%s(res[%d])", kinds[k].mk, j)
@@ -35,7 +47,8 @@ func genMem(sh *Shape) {
 	b.WriteString("}\n\n")
 	var rows [][]int
 	for _, cs := range sh.Cases {
-		r := []int{cs.ID}
+		r := []int{cs.ID, 0, 0, 0}
+		copy(r[1:4], cs.C.Dep)
 		for _, e := range cs.I.Seq {
 			r = append(r, e.C, e.Rep)
 		}
@@ -47,10 +60,10 @@ func genMem(sh *Shape) {
 	}
 	l, vs := lhs(len(kr), false, ":=")
 	var body strings.Builder
-	body.WriteString("\t\t\tm := deriveMem(fimpl)\n\t\t\tfor s := 1; s+1 < len(cs); s += 2 {\n\t\t\t\tc, rep := cs[s], cs[s+1]\n\t\t\t\t_, _ = c, rep\n")
+	body.WriteString("\t\t\tm := deriveMem(fimpl)\n\t\t\tmemf = m\n\t\t\tfor s := 4; s+1 < len(cs); s += 2 {\n\t\t\t\tc, rep := cs[s], cs[s+1]\n\t\t\t\t_, _ = c, rep\n")
 	fmt.Fprintf(&body, "\t\t\t\t%sm(%s)\n", l, strings.Join(args, ", "))
 	fmt.Fprintf(&body, "\t\t\t\to.Steps = append(o.Steps, rt.Step{Calls: rt.Take(), Ret: rt.Ints(%s)})\n\t\t\t}\n", strings.Join(prArgs(vs, kr, kinds), ", "))
-	b.WriteString(runLoop(rows, "", body.String(), ""))
+	b.WriteString(runLoop(rows, "\t\tdep = [3]int{cs[1], cs[2], cs[3]}\n", body.String(), ""))
 	sh.Src = b.String()
 	sh.Call = "deriveMem(" + funcType(pt, rtys) + ")"
 	sh.Size = []int{len(kp) + len(kr), kindRank(kp) + kindRank(kr)}
